@@ -71,7 +71,9 @@ class Body:
             return [t["t"]]
         if k == "switch":
             out = [x[1] for x in t["ts"]]
-            out.append(t["else"])
+            eb = self.blocks[t["else"]]
+            if not (eb["t"]["k"] == "unreachable" and not eb["s"]):
+                out.append(t["else"])
             seen = []
             for x in out:
                 if x not in seen:
